@@ -168,15 +168,10 @@ def peginTx : LTx :=
 
 def peginPset : Bytes := psetMagic ++ writeKVs [([0x00], LTx.ser peginTx)] ++ writeKVs [] ++ writeKVs []
 
-set_option maxRecDepth 100000 in
-/-- WITNESS (D53, replayed on embit by the check): the PSET is accepted, the transaction rebuilt from its scopes has
-    lost the peg-in flag, so it is NOT the global transaction — the full statement without `D53Free` is false -/
-theorem pset_v0_tx_dropped_D53 :
-    (LPset.parse trivialKo peginPset).bind LPset.tx
-      = some { peginTx with vin := [{ txid := List.replicate 32 7, vout := 1, scriptSig := [], sequence := 0xfffffffd }] }
-    ∧ (LPset.parse trivialKo peginPset).bind LPset.tx ≠ some peginTx
-    ∧ D53Free peginTx [[]] = false := by
-  decide +kernel
+-- REMOVED with the repair of D53 (fixes/d53.diff; the model follows the fixed code): the witness theorem
+-- `pset_v0_tx_dropped_D53` ("the transaction rebuilt from the scopes has lost the peg-in flag") is FALSE of the fixed
+-- code. Its positive counterpart is `C18Z.pset_v0_pegin_kept` (same PSET: the transaction is the global transaction),
+-- and the statements without `D53Free` are in Props/C18Z.lean.
 
 /-! non-vacuity: a version-2 PSET with one input (liquid value, unknown proprietary key) and one output read in the
     legacy spelling, and a version-0 PSET outside the D53 region -/
@@ -350,10 +345,10 @@ def exOut : LOutScope :=
 def exP : LPset := { version := some 2, txVersion := some 2, inputs := [exIn], outputs := [exOut] }
 
 theorem exIn_wf : LInWF trivialKo exIn :=
-  ⟨rfl, rfl, by decide, by decide, by decide, by decide, trivial, trivial, by decide⟩
+  ⟨rfl, rfl, by decide, by decide, by decide, by decide, trivial, trivial, by decide, ⟨rfl, rfl⟩⟩
 
 theorem exOut_wf : LOutWF trivialKo exOut :=
-  ⟨rfl, by decide, by decide, by decide, by decide, by decide⟩
+  ⟨rfl, by decide, by decide, by decide, by decide, by decide, rfl⟩
 
 theorem exP_wf : LPsetWF trivialKo exP :=
   ⟨rfl, by decide, fun s hs => by simp [exP] at hs; subst hs; exact exIn_wf,
@@ -392,10 +387,10 @@ theorem exP0_wf : LPsetWF0 trivialKo exP0 := by
   refine ⟨by decide, trivial, by simp [exP0], by simp [exP0], by simp [exP0], by simp [exP0], ?_, ?_, ?_⟩
   · intro s hs
     simp [exP0] at hs; subst hs
-    exact ⟨rfl, rfl, by decide, by decide, by decide, by decide, trivial, trivial, by decide⟩
+    exact ⟨rfl, rfl, by decide, by decide, by decide, by decide, trivial, trivial, by decide, ⟨rfl, rfl⟩⟩
   · intro s hs
     simp [exP0] at hs; subst hs
-    exact ⟨by decide, by decide, by decide, by decide, by decide, by decide⟩
+    exact ⟨by decide, by decide, by decide, by decide, by decide, by decide, rfl⟩
   · refine ⟨plainTx, by decide +kernel, plainTx_wf, by decide +kernel, rfl, rfl, ?_, ?_⟩
     · intro j s hs
       cases j with
